@@ -26,6 +26,26 @@ def load_known():
     return json.load(open(p)).get("known", [])
 
 
+def thorough_extras(rep, prop):
+    """thorough tier = quick rules + library-model validation + ATN deserialiser cross-check + the self-test slice of this property
+    (every seeded faulty change of the property must be reported, every benign change must leave the check silent)"""
+    from . import libcheck, selftest
+    from .gram import model as gm
+    from .rules import common
+    M = gm.Model(rep)
+    common.guarded(rep, "LIB", libcheck.validate, rep, M.G)
+    common.guarded(rep, "LIB.ATN", libcheck.atn_cross_check, rep, M)
+    rep.rule("SELFTEST", "checker self-test: every seeded faulty change of this property under /verif/seeded is reported (exit 1), every behaviour-preserving change under /verif/benign leaves the check silent (exit 0)", floor=1)
+    cs, bad, skipped = selftest.run(prop, jobs=16, quiet=True)
+    for kind, name, _, _ in cs:
+        hit = [b for b in bad if b[1] == name]
+        if hit:
+            rep.unknown("SELFTEST", name, "%s variant %s gives the expected verdict" % (kind, name), "exit %d: %s" % (hit[0][3], hit[0][4]))
+        else:
+            rep.ok("SELFTEST", name, "%s variant %s gives the expected verdict" % (kind, name))
+    rep.extra["selftest"] = {"cases": len(cs), "unexpected": len(bad), "skipped_patch_does_not_apply": skipped}
+
+
 def main(argv=None):
     ap = argparse.ArgumentParser()
     ap.add_argument("prop")
@@ -42,6 +62,8 @@ def main(argv=None):
         return 2
     try:
         mod.run(rep, a.tier)
+        if a.tier == "thorough":
+            thorough_extras(rep, prop)
         if a.replay:
             want = {(d["rule"], d["key"]) for d in json.load(open(a.replay))}
             rep.obs = [o for o in rep.obs if (o.rule, o.key) in want or o.status != "refuted"]
